@@ -7,8 +7,9 @@ import GarbleVerif.Model.MatchSpec
 `bitExpr` / `bitStmts` / `bitStmt` follow `compile.rs` (`TypedExpr::compile`, `TypedStmt::compile`) on the
 core fragment of the language — Booleans and integers of every width, literals, variables, `!`, unary
 `-`, `+`, `-`, `*`, `/`, `%`, `<<`, `>>`, `<`, `>`, `<=`, `>=`, `==`, `!=`, `&`, `|`, `^`, `&&`, `||`, casts between all of
-these types, `if`/`else` (as expression and as statement), `match` on a scalar whose arms cover its type, blocks, `()`, `let`, `let mut` and assignment
-to a variable — but instead of emitting gates they compute the value every wire would carry for given
+these types, `if`/`else` (as expression and as statement), `match` on a scalar whose arms cover its type, blocks, `()`, `let`, `let mut`, assignment
+to a variable and calls of functions with scalar parameters (`callAt`: the callee's body with its parameters bound to
+the argument wires) — but instead of emitting gates they compute the value every wire would carry for given
 inputs: operands become big-endian bit lists, operators are the bit-list functions of
 `Model/Arith.lean` (the same functions that C03 ties to `CircuitBuilder`), the panic record is its
 abstract state "reason of the first failing operation, if any" (C02): every expression reports the
@@ -189,9 +190,13 @@ def armOut (bind : Option String) (enve : BEnv) : BEnv :=
 zeros), the muxed panic (relative to the state after the scrutinee) and the muxed variables -/
 abbrev ArmSt := Bool × Option (VTy × List Bool) × P × BEnv
 
+/-- what a call returns for given argument bits: type, bits and the first panic raised in the callee (`none`: the
+function is not part of the fragment) -/
+abbrev CallFn := String → List (STy × List Bool) → Option (VTy × List Bool × P)
+
 mutual
 /-- type, bits, panic (the first one raised inside `e`, if any) and variables after an expression -/
-def bitExpr (benv : BEnv) : Expr → Option (VTy × List Bool × P × BEnv)
+def bitExpr (call : CallFn) (benv : BEnv) : Expr → Option (VTy × List Bool × P × BEnv)
   | .bool b => some (.s .bool, [b], none, benv)
   | .int n k => if k.inRange n then some (.s (.int k), intToBits n k.bits, none, benv) else none
   | .var x =>
@@ -199,12 +204,12 @@ def bitExpr (benv : BEnv) : Expr → Option (VTy × List Bool × P × BEnv)
     | some (t, bs) => some (.s t, bs, none, benv)
     | none => none
   | .un .not .bool a =>
-    match bitExpr benv a with
+    match bitExpr call benv a with
     | some (.s .bool, [b], p1, env1) => some (.s .bool, [!b], p1, env1)
     | _ => none
   | .un .neg (.int k) a =>
     if k.signed then
-      match bitExpr benv a with
+      match bitExpr call benv a with
       | some (.s (.int k'), bs, p1, env1) =>
         if k' = k then
           let r := Arith.negChecked bs
@@ -215,17 +220,17 @@ def bitExpr (benv : BEnv) : Expr → Option (VTy × List Bool × P × BEnv)
   /- `mux_panic(x, panic after y, panic before y)`, `mux_envs(x, env after y, env before y)`: the panics
   and the assignments of `y` count only if it runs -/
   | .bin .land _ a b =>
-    match bitExpr benv a with
+    match bitExpr call benv a with
     | some (.s .bool, [x], p1, env1) =>
-      match bitExpr env1 b with
+      match bitExpr call env1 b with
       | some (.s .bool, [y], p2, env2) =>
         some (.s .bool, [x && y], seqP p1 (if x then p2 else none), muxEnv x env2 env1)
       | _ => none
     | _ => none
   | .bin .lor _ a b =>
-    match bitExpr benv a with
+    match bitExpr call benv a with
     | some (.s .bool, [x], p1, env1) =>
-      match bitExpr env1 b with
+      match bitExpr call env1 b with
       | some (.s .bool, [y], p2, env2) =>
         some (.s .bool, [x || y], seqP p1 (if x then none else p2), muxEnv x env1 env2)
       | _ => none
@@ -234,9 +239,9 @@ def bitExpr (benv : BEnv) : Expr → Option (VTy × List Bool × P × BEnv)
   | .bin .shl ty a b =>
     match STy.ofTy ty with
     | some (.int k) =>
-      match bitExpr benv a with
+      match bitExpr call benv a with
       | some (.s (.int k'), x, p1, env1) =>
-        match bitExpr env1 b with
+        match bitExpr call env1 b with
         | some (.s (.int .u8), y, p2, env2) =>
           if k' = k then
             let r := Arith.binop .shl k.signed false k.signed x y
@@ -248,9 +253,9 @@ def bitExpr (benv : BEnv) : Expr → Option (VTy × List Bool × P × BEnv)
   | .bin .shr ty a b =>
     match STy.ofTy ty with
     | some (.int k) =>
-      match bitExpr benv a with
+      match bitExpr call benv a with
       | some (.s (.int k'), x, p1, env1) =>
-        match bitExpr env1 b with
+        match bitExpr call env1 b with
         | some (.s (.int .u8), y, p2, env2) =>
           if k' = k then
             let r := Arith.binop .shr k.signed false k.signed x y
@@ -263,15 +268,15 @@ def bitExpr (benv : BEnv) : Expr → Option (VTy × List Bool × P × BEnv)
   addition of the other operand (the left operand is looked at first) -/
   | .bin op ty a b =>
     match (if op = .mul then litFactor a else none), (if op = .mul then litFactor b else none) with
-    | some (neg, n, k), _ => litMul neg n k ty (bitExpr benv b)
-    | none, some (neg, n, k) => litMul neg n k ty (bitExpr benv a)
+    | some (neg, n, k), _ => litMul neg n k ty (bitExpr call benv b)
+    | none, some (neg, n, k) => litMul neg n k ty (bitExpr call benv a)
     | none, none =>
     match STy.ofTy ty with
     | none => none
     | some t =>
-      match bitExpr benv a with
+      match bitExpr call benv a with
       | some (.s ta, x, p1, env1) =>
-        match bitExpr env1 b with
+        match bitExpr call env1 b with
         | some (.s tb, y, p2, env2) =>
           if ta = t ∧ tb = t then
             match binBits op t x y with
@@ -284,7 +289,7 @@ def bitExpr (benv : BEnv) : Expr → Option (VTy × List Bool × P × BEnv)
   | .cast src dst a =>
     match STy.ofTy src, STy.ofTy dst with
     | some ts, some td =>
-      match bitExpr benv a with
+      match bitExpr call benv a with
       | some (.s ta, x, p1, env1) =>
         if ta = ts then some (.s td, Arith.cast x ts.signed td.bits, p1, env1) else none
       | _ => none
@@ -292,9 +297,9 @@ def bitExpr (benv : BEnv) : Expr → Option (VTy × List Bool × P × BEnv)
   /- both branches are compiled from the environment the condition left; bits, panic and every
   variable are selected by the condition afterwards -/
   | .ite c t f =>
-    match bitExpr benv c with
+    match bitExpr call benv c with
     | some (.s .bool, [cb], pc, env1) =>
-      match bitExpr env1 t, bitExpr env1 f with
+      match bitExpr call env1 t, bitExpr call env1 f with
       | some (tt, tb, pt, envT), some (tf, fb, pf, envF) =>
         if tt = tf then
           some (tt, (if cb then tb else fb), seqP pc (if cb then pt else pf), muxEnv cb envT envF)
@@ -302,7 +307,7 @@ def bitExpr (benv : BEnv) : Expr → Option (VTy × List Bool × P × BEnv)
       | _, _ => none
     | _ => none
   | .block ss =>
-    match bitStmts benv ss with
+    match bitStmts call benv ss with
     | some (t, bs, p, env1) => some (t, bs, p, restoreB benv env1)
     | none => none
   /- `()` -/
@@ -310,23 +315,42 @@ def bitExpr (benv : BEnv) : Expr → Option (VTy × List Bool × P × BEnv)
   /- `match` on a scalar whose arms cover the type: every arm is compiled from the state after the scrutinee; value,
   panic and variables of the first arm whose pattern matches are selected -/
   | .match_ scrut arms =>
-    match bitExpr benv scrut with
+    match bitExpr call benv scrut with
     | some (.s ts, sb, ps, env1) =>
       if matchCovers ts arms then
-        match bitArms env1 ts sb arms (false, none, none, env1) with
+        match bitArms call env1 ts sb arms (false, none, none, env1) with
         | some (_, some (t, bs), pa, envF) => some (t, bs, seqP ps pa, envF)
         | _ => none
       else none
     | _ => none
+  /- a call: the arguments are compiled left to right in the caller's scope, the callee's body sees its parameters
+  only; the caller goes on with the variables the arguments left -/
+  | .call fn args =>
+    match bitList call benv args with
+    | some (vs, pargs, env1) =>
+      match call fn vs with
+      | some (t, bs, pb) => some (t, bs, seqP pargs pb, env1)
+      | none => none
+    | none => none
   | _ => none
+/-- argument lists: left to right, the first panic wins -/
+def bitList (call : CallFn) (benv : BEnv) : ExprList → Option (List (STy × List Bool) × P × BEnv)
+  | .nil => some ([], none, benv)
+  | .cons e rest =>
+    match bitExpr call benv e with
+    | some (.s t, bs, p1, env1) =>
+      match bitList call env1 rest with
+      | some (vs, p2, env2) => some ((t, bs) :: vs, seqP p1 p2, env2)
+      | none => none
+    | _ => none
 /-- the arm loop: `s = !has_prev_match && is_match` selects the arm -/
-def bitArms (benv1 : BEnv) (ts : STy) (scrut : List Bool) : Arms → ArmSt → Option ArmSt
+def bitArms (call : CallFn) (benv1 : BEnv) (ts : STy) (scrut : List Bool) : Arms → ArmSt → Option ArmSt
   | .nil, st => some st
   | .cons p e rest, (hasPrev, ret, pacc, envAcc) =>
     match patBits p ts scrut with
     | none => none
     | some (m, bind) =>
-      match bitExpr (armEnv bind ts scrut benv1) e with
+      match bitExpr call (armEnv bind ts scrut benv1) e with
       | none => none
       | some (te, be, pe, enve) =>
         let envOut := armOut bind enve
@@ -334,44 +358,76 @@ def bitArms (benv1 : BEnv) (ts : STy) (scrut : List Bool) : Arms → ArmSt → O
         match ret with
         | some (tr, rbits) =>
           if tr = te then
-            bitArms benv1 ts scrut rest
+            bitArms call benv1 ts scrut rest
               (hasPrev || m, some (tr, if s then be else rbits), if s then pe else pacc, muxEnv s envOut envAcc)
           else none
         | none =>
-          bitArms benv1 ts scrut rest
+          bitArms call benv1 ts scrut rest
             (hasPrev || m, some (te, if s then be else List.replicate be.length false), if s then pe else pacc,
               muxEnv s envOut envAcc)
 /-- the value of a statement list is that of its last statement -/
-def bitStmts (benv : BEnv) : StmtList → Option (VTy × List Bool × P × BEnv)
+def bitStmts (call : CallFn) (benv : BEnv) : StmtList → Option (VTy × List Bool × P × BEnv)
   | .nil => some (.unit, [], none, benv)
-  | .cons s .nil => bitStmt benv s
+  | .cons s .nil => bitStmt call benv s
   | .cons s rest =>
-    match bitStmt benv s with
+    match bitStmt call benv s with
     | some (_, _, p1, env1) =>
-      match bitStmts env1 rest with
+      match bitStmts call env1 rest with
       | some (t2, bs2, p2, env2) => some (t2, bs2, seqP p1 p2, env2)
       | none => none
     | none => none
-def bitStmt (benv : BEnv) : Stmt → Option (VTy × List Bool × P × BEnv)
+def bitStmt (call : CallFn) (benv : BEnv) : Stmt → Option (VTy × List Bool × P × BEnv)
   | .let_ (.ident x) e =>
-    match bitExpr benv e with
+    match bitExpr call benv e with
     | some (.s t, bs, p1, env1) => some (.unit, [], p1, (x, t, bs) :: env1)
     | _ => none
   | .letMut x e =>
-    match bitExpr benv e with
+    match bitExpr call benv e with
     | some (.s t, bs, p1, env1) => some (.unit, [], p1, (x, t, bs) :: env1)
     | _ => none
   /- `x = e`: the value is compiled first, then the innermost binding of `x` is replaced -/
   | .assign x .nil e =>
-    match bitExpr benv e with
+    match bitExpr call benv e with
     | some (.s t, bs, p1, env1) =>
       match env1.get? x with
       | some (t', _) => if t' = t then some (.unit, [], p1, env1.set x bs) else none
       | none => none
     | _ => none
-  | .expr e => bitExpr benv e
+  | .expr e => bitExpr call benv e
   | _ => none
 end
+
+/-- the callee's scope: its parameters bound to the argument bits (types must agree), last parameter innermost -/
+def bindParams : List (String × Ty) → List (STy × List Bool) → Option BEnv
+  | [], [] => some []
+  | (x, ty) :: ps, (t, bs) :: as =>
+    if STy.ofTy ty = some t then
+      match bindParams ps as with
+      | some env => some (env ++ [(x, t, bs)])
+      | none => none
+    else none
+  | _, _ => none
+
+/-- calls, inlined to depth `n` (Garble has no recursion: the call depth of a checked program is below the number of
+its functions). Programs with constants are outside the fragment. -/
+def callAt (prog : Prog) : Nat → CallFn
+  | 0, _, _ => none
+  | n + 1, fn, vs =>
+    match prog.fn? fn with
+    | none => none
+    | some d =>
+      if prog.consts.isEmpty then
+        match bindParams d.params vs with
+        | some callee =>
+          match bitStmts (callAt prog n) callee d.body with
+          | some (t, bs, p, _) => some (t, bs, p)
+          | none => none
+        | none => none
+      else none
+
+/-- a function body with calls inlined as deep as the program can nest them -/
+def bitBody (prog : Prog) (benv : BEnv) (body : StmtList) : Option (VTy × List Bool × P × BEnv) :=
+  bitStmts (callAt prog (prog.fns.length + 1)) benv body
 
 end Bit
 end GV
